@@ -62,7 +62,7 @@ Theorem C11_flush : forall crc_update masked, chunk_law crc_update ->
   s_data (o_final o) = prefill ++ file_bytes crc_update masked calls fin.
 Proof.
   intros crc masked [Ha Hn] oracle k prefill calls fin Hb.
-  pose proof (sink_session_flush crc masked Ha Hn oracle (FlushFail k) prefill calls fin Hb) as (A & B & (rf & C1 & C2) & D).
+  pose proof (sink_session_flush crc masked _ _ (uncond_law crc Ha Hn) oracle (FlushFail k) prefill calls fin (forall_forall_true _) (forall_true _) Hb) as (A & B & (rf & C1 & C2) & D).
   cbv zeta. repeat split; auto.
   - eapply Forall_impl; [|exact A]. intros r ->. reflexivity.
   - exists rf. rewrite C2. auto.
@@ -91,7 +91,7 @@ Theorem C11_finished_means_complete : forall crc_update masked, chunk_law crc_up
   end.
 Proof.
   intros crc masked [Ha Hn] oracle fl prefill calls fin.
-  pose proof (sink_session_sane crc masked Ha Hn oracle fl prefill calls fin) as H.
+  pose proof (sink_session_sane crc masked _ _ (uncond_law crc Ha Hn) oracle fl prefill calls fin (forall_forall_true _) (forall_true _)) as H.
   cbv zeta in *. destruct H as [A B]. split.
   - eapply Forall_impl; [|exact A]. intros r [H _]. destruct (st_of r); cbn in *; auto.
   - destruct (o_fin _) as [rf|] eqn:Ef.
@@ -99,7 +99,7 @@ Proof.
       * eapply Forall_impl; [|exact B1]. intros r ->. reflexivity.
       * destruct (st_of rf); cbn in *; auto.
       * intros H. destruct (st_of rf) as [[]| | |]; cbn in H; try discriminate.
-        destruct (B4 eq_refl) as (X & _ & Y). auto.
+        destruct (B4 eq_refl) as (X & _ & Y & _). auto.
     + destruct B as (rs0 & r & k & B1 & B2 & B3 & _). exists rs0, r, k. split; [exact B1|split].
       * eapply Forall_impl; [|exact B2]. intros x ->. reflexivity.
       * now rewrite B3.
@@ -123,7 +123,7 @@ Theorem C11_finished_means_complete_bufwriter : forall crc_update masked, chunk_
   end.
 Proof.
   intros crc masked [Ha Hn] cap oracle fl prefill calls fin.
-  pose proof (buf_session_sane crc masked Ha Hn cap oracle fl prefill calls fin) as H.
+  pose proof (buf_session_sane crc masked _ _ (uncond_law crc Ha Hn) cap oracle fl prefill calls fin (forall_forall_true _) (forall_true _)) as H.
   cbv zeta in *. destruct H as [A B]. split.
   - eapply Forall_impl; [|exact A]. intros r [H _]. destruct (st_of r); cbn in *; auto.
   - destruct (o_fin _) as [rf|] eqn:Ef.
@@ -131,7 +131,7 @@ Proof.
       * eapply Forall_impl; [|exact B1]. intros r ->. reflexivity.
       * destruct (st_of rf); cbn in *; auto.
       * intros H. destruct (st_of rf) as [[]| | |]; cbn in H; try discriminate.
-        destruct (B4 eq_refl) as (X & _ & Y & Z). auto.
+        destruct (B4 eq_refl) as (X & _ & (Y & Z) & _). auto.
     + destruct B as (rs0 & r & k & B1 & B2 & B3 & _). exists rs0, r, k. split; [exact B1|split].
       * eapply Forall_impl; [|exact B2]. intros x ->. reflexivity.
       * now rewrite B3.
@@ -162,6 +162,46 @@ Example C11_nonvacuous :
   length (s_data (o_final f)) = 12%nat.
 Proof. vm_compute. repeat split. Qed.
 
+(* ================= end to end with the builder model and the real checksum =================
+   C11_fault on the session the builder model itself produces (WriterBuilder.session_of: the
+   chunk lists of new, of every add/insert call of [ops], and of into_inner) and the model of the
+   real CheckSummer: with the first fault at sink response K, every API call that completed
+   before it returned Ok (as far as I/O goes: st_of is the I/O status; a rejected key writes
+   nothing), the call during which response K is consumed returns Err(Io kf) and is the last,
+   and into_inner is not Ok once the fault was consumed.  No premise on [ops] is needed: the
+   statement is about whatever chunks the model emits. *)
+Require Import FstV.Builder FstV.WriterBuilder.
+
+Theorem C11_end_to_end : forall ty rows cols ops pre bad kf post fl prefill,
+  Forall benign pre -> fault_kind bad kf ->
+  let '(calls, fin) := session_of ty rows cols ops in
+  let K := length pre in
+  let o := real_sink_session (pre ++ bad :: post) fl prefill calls fin in
+  let before r := (wc_of r <= K)%nat /\ to_res (st_of r) = Ok tt in
+  let at_fault r := wc_of r = S K /\ to_res (st_of r) = Err (EIo kf) in
+  match o_fin o with
+  | Some rf => Forall before (o_calls o) /\ wc_of rf = s_calls (o_final o) /\
+               (((wc_of rf <= K)%nat /\ to_res (st_of rf) = to_res (flush_status fl)) \/ at_fault rf)
+  | None => exists rs0 r, o_calls o = rs0 ++ [r] /\ Forall before rs0 /\ at_fault r
+  end.
+Proof.
+  intros ty rows cols ops pre bad kf post fl prefill Hb Hk.
+  destruct (session_of ty rows cols ops) as [calls fin].
+  exact (C11_fault real_update real_masked pre bad kf post fl prefill calls fin Hb Hk).
+Qed.
+
+Corollary C11_end_to_end_not_finished : forall ty rows cols ops pre bad kf post fl prefill,
+  Forall benign pre -> fault_kind bad kf ->
+  let '(calls, fin) := session_of ty rows cols ops in
+  let o := real_sink_session (pre ++ bad :: post) fl prefill calls fin in
+  (length pre < s_calls (o_final o))%nat ->
+  forall rf, o_fin o = Some rf -> to_res (st_of rf) = Err (EIo kf).
+Proof.
+  intros ty rows cols ops pre bad kf post fl prefill Hb Hk.
+  destruct (session_of ty rows cols ops) as [calls fin].
+  exact (C11_fault_not_finished real_update real_masked pre bad kf post fl prefill calls fin Hb Hk).
+Qed.
+
 Check C11_fault : forall crc_update masked pre bad kf post fl prefill calls fin,
   Forall benign pre -> fault_kind bad kf ->
   let K := length pre in
@@ -180,3 +220,5 @@ Print Assumptions C11_finished_means_complete.
 Print Assumptions C11_finished_means_complete_bufwriter.
 Print Assumptions C11_cont_spec.
 Print Assumptions C11_nonvacuous.
+Print Assumptions C11_end_to_end.
+Print Assumptions C11_end_to_end_not_finished.
